@@ -102,7 +102,7 @@ Definition wschar (c : N) : bool := (c =? 32) || (c =? 9) || (c =? 12) || (c =? 
 
 (* ------------------------------------------------------------------ Part 2: reference lexer *)
 
-Inductive lerr := ErrHexEscape | ErrEscape | ErrNewlineIn (q : N) | ErrEOFIn (q : N) | ErrEOFInComment.
+Inductive lerr := ErrHexEscape | ErrEscape | ErrNullIn (q : N) | ErrNewlineIn (q : N) | ErrEOFIn (q : N) | ErrEOFInComment.
 
 Definition cons1 {B} (c : N) (p : list N * B) : list N * B := (c :: fst p, snd p).
 
@@ -127,11 +127,10 @@ Fixpoint l_num (allowsign : bool) (cs : list achar) : list N * list achar :=
 
 Definition hexdigit (c : N) : bool := digit c || ((65 <=? c) && (c <=? 70)) || ((97 <=? c) && (c <=? 102)).
 Definition octdigit (c : N) : bool := (48 <=? c) && (c <=? 55).
-(* 6.4.4.4 simple-escape-sequence characters; NUL is accepted by the implementation (strchr quirk) and
-   is not a source character, so it is outside the domain of the standard anyway *)
+(* 6.4.4.4 simple-escape-sequence characters *)
 Definition simple_esc (c : N) : bool :=
   (c =? 39) || (c =? 34) || (c =? 63) || (c =? 92) || (c =? 97) || (c =? 98) || (c =? 102) ||
-  (c =? 110) || (c =? 114) || (c =? 116) || (c =? 118) || (c =? 0).
+  (c =? 110) || (c =? 114) || (c =? 116) || (c =? 118).
 
 (* cs = what follows the backslash *)
 Definition l_escape (cs : list achar) : (list N * list achar) + lerr :=
@@ -178,6 +177,7 @@ Fixpoint l_quoted (fuel : nat) (q : N) (cs : list achar) : qres :=
         | inr e => QErr e
         end
       else if c =? q then QOk [c] r
+      else if c =? 0 then QErr (ErrNullIn q)      (* NUL is not a source character; the implementation rejects it *)
       else if c =? 10 then QErr (ErrNewlineIn q)
       else qcons [c] (l_quoted n q r)
     end
